@@ -50,7 +50,7 @@ NOT_CARRIED = ["a component body that itself writes Broker.instances (bodies are
                "the recursive walk on an acyclic registry is not proved"]
 
 
-def bounded(check):
+def _bounded0(check):
     """bounded stand-in / native witness search: the real dr.run on every small dependency graph against a reference evaluation"""
     import json, os, subprocess
     here = os.path.dirname(os.path.dirname(os.path.abspath(__file__)))
@@ -96,3 +96,8 @@ def bounded(check):
         out2["replay"] = path
     outs.append(out2)
     return outs
+
+
+def bounded(check):
+    from props._xcheck import xcheck
+    return list(_bounded0(check)) + [xcheck(check, ['dr'], 'dr')]
